@@ -298,8 +298,8 @@ theorem npInfer_eq (es : List Elem) : npInfer es =
     else if es.all (· == .k .timedelta) then some .object
     else if es.all (· == .k .bytes) then some .bytes
     else if es.all (fun e => match e with
-        | .k .obj | .k .date | .k .datetime | .k .timedelta | .k .bool | .k .int | .k .float => true | _ => false)
-        && es.any (· == .k .obj) then some .object
+        | .k .obj | .k .datesub | .k .date | .k .datetime | .k .timedelta | .k .bool | .k .int | .k .float => true | _ => false)
+        && es.any (fun e => e == .k .obj || e == .k .datesub) then some .object
     else none := rfl
 
 theorem isEmpty_false_of_mem {α : Type} {l : List α} {a : α} (h : a ∈ l) : l.isEmpty = false := by
